@@ -163,6 +163,9 @@ def gen(tier, rng):
     for n in (1, 2):
         for bs in itertools.product(SMALL_BLOCKS, repeat=n):
             yield {"fmt": SMALL_FMTS[(n + len(repr(bs))) % len(SMALL_FMTS)], "blocks": list(bs), "ws": 1}
+    for bs in ([], [["impl", "notes\n\n", "r"]], [["entry", "a", "k", [["x", "{1}"]], "r"], ["impl", "end\n\n\n", "r"]], [["failed", "f1\n\n"]]):
+        for f in (mkfmt(), mkfmt("", "auto", "", True, "% {n}")):
+            yield {"fmt": f, "blocks": bs, "ws": 1}
     # a library object with a history: it held an entry with a long field key, its views were read, the entry was removed
     for col in ("auto", 7):
         for keys in (["abc", "k" * 9], ["a"], []):
@@ -320,6 +323,12 @@ def _ws_check(case):
         got = "raise " + type(e).__name__
     if got != want:
         return "write_string(library, bibtex_format=...) gives %r, the writer on the library with every value in braces %r" % (got[:200], want[:200])
+    if not got.startswith("raise "):
+        import io
+        buf = io.StringIO()
+        bibtexparser.write_file(buf, lib, bibtex_format=build_fmt(case["fmt"]))
+        if buf.getvalue() != got:
+            return "write_file(stream, library, bibtex_format=...) writes %r, write_string gives %r" % (buf.getvalue()[-80:], got[-80:])
     return None
 
 
